@@ -283,7 +283,9 @@ func (w *EncWorld) Run(x *simkit.Ctx) {
 		case 2:
 			return &simkit.Step{Op: "restart"}
 		case 3:
-			return &simkit.Step{Op: "reconf", A: r.Intn(2), N: r.Intn(4), B: r.Intn(6), V: int64(r.Intn(6))}
+			// C = 1: an accepted reconfiguration stays in force (both nodes are moved to it, the run goes on
+			// under the new heights and later restarts use them); otherwise the nodes return to the original one
+			return &simkit.Step{Op: "reconf", A: r.Intn(2), N: r.Intn(4), B: r.Intn(6), V: int64(r.Intn(6)), C: r.Pick(1, 1)}
 		case 4:
 			return &simkit.Step{Op: "cid", V: seed}
 		default:
